@@ -76,7 +76,7 @@ mixed extra() {
   p->x = K + cv; p->s = parent_name();
   return ({ p->x, p->s, evaluate(f, 1), evaluate(g, 3), parent_fn(2), sw("a"), sw(KS), sw("a longer label %(cv)d"), sw("zz"), sw(0), cv, pg,
             psw("x"), psw(parent_name()), psw("nope"), parent_k(), vsum(), va(), vb(), vc(), vd(), ve(), function_exists("parent_fn", this_object()), sizeof(functions(this_object())),
-            sw1("only"), sw1("x"), sw1d(KS), sw1d("only"), sw2("only"), sw2("other %(cv)d"), sw2("q"), isw(5), isw(6), rsw(2), rsw(100), rsw(7) });
+            sw1("only"), sw1("x"), sw1d(KS), sw1d("only"), sw2("only"), sw2("other %(cv)d"), sw2("q"), isw(5), isw(6), rsw(2), rsw(100), rsw(7), strlen(bigs()), bigs()[<3..] });
 }
 void fail_here() {
   int z;
@@ -97,7 +97,9 @@ def cases(draw):
     ops.append("run")
     # which of the parent's five virtual functions the child overrides (gaps matter: the function table of a loaded binary is re-sorted)
     overrides = "".join(n for n in "abcde" if draw(st.booleans()))
-    return dict(y=y, ops=ops, save_types=draw(st.booleans()), overrides=overrides, scr=draw(st.integers(0, 10 ** 6)))
+    # now and then the child carries one string constant around the 16-bit length the binary format stores (built from adjacent literals)
+    bigstr = draw(st.sampled_from([0, 0, 0, 0, 0, 60, 65, 66, 70]))
+    return dict(y=y, ops=ops, save_types=draw(st.booleans()), overrides=overrides, scr=draw(st.integers(0, 10 ** 6)), bigstr=bigstr)
 
 
 class State:
@@ -117,6 +119,11 @@ def sources(case, s):
     from . import c03
     files, names = c03.render_program(case["y"])
     ov = "".join("int v%s() { return %d; }\n" % (n, 6 + i) for i, n in enumerate("abcde") if n in case.get("overrides", "ac"))
+    if case.get("bigstr"):
+        kb = case["bigstr"]
+        ov += "string bigs() { return\n" + "\n".join('"%s"' % (chr(97 + i % 26) * (1000 if i < kb - 1 else 1000 - 465)) for i in range(kb)) + ";\n}\n"
+    else:
+        ov += 'string bigs() { return "small"; }\n'
     child = (CHILD_HEAD % dict(pragma="#pragma save_types" if case["save_types"] else "", cv=s.cv)) + files["r"] + (CHILD_TAIL % dict(cv=s.cv)).replace("OVERRIDES", ov)
     return {"t/c17c.c": child, "t/c17p.c": PARENT % dict(pv=s.pv), "t/c17.h": HEADER % dict(k=s.k), "t/c17p.h": PHEADER % dict(pk=s.pk)}, names
 
